@@ -136,7 +136,7 @@ type builtinRes struct {
 	T   string     `json:"t"` // n | dec | tok | err | panic | novalue | wrongtype | notfinite | unrep
 	V   *floorForm `json:"v,omitempty"`
 	D   *decForm   `json:"d,omitempty"`
-	Ty  string     `json:"ty,omitempty"`  // tok: n | b | s
+	Ty  string     `json:"ty,omitempty"` // tok: n | b | s
 	Tok string     `json:"tok"`          // tok: the value
 }
 
@@ -146,8 +146,8 @@ type builtinEvent struct {
 	F    string      `json:"f"`
 	X    *floorForm  `json:"x,omitempty"`
 	N    int         `json:"n"`
-	Ty   string      `json:"ty,omitempty"`  // conv: expected type of the result
-	Tok  string      `json:"tok"`           // conv / mustfail: the argument as a token
+	Ty   string      `json:"ty,omitempty"` // conv: expected type of the result
+	Tok  string      `json:"tok"`          // conv / mustfail: the argument as a token
 	Res  builtinRes  `json:"res"`
 	Res2 *builtinRes `json:"res2,omitempty"`
 	// not read by the trace specification: the literal case, for replay files
